@@ -33,7 +33,7 @@ def mateInOne : Color → Score
 
 /-- the shortcut `was_capture && insuffient_material(board)` of `alphabeta` scores such a move as a
 draw *before* looking for mate; in chess no such move can mate (a lone minor piece cannot mate a
-bare king) — that chess fact is not proved here, so it is a hypothesis of `mate1_found` -/
+bare king: `Proofs/Insufficient.lean`, `insufficient_not_mate`), so `mate1_found` needs no side condition -/
 def drawnCapture (b : Board) (mv : Move) : Bool :=
   (b.raw.get mv.dest).isSome && insufficientMaterial (b.moveUnchecked mv)
 
